@@ -19,7 +19,17 @@ for path in sorted(glob.glob(os.path.join(ROOT, "seeded", "*", "meta.json"))):
             print(meta["id"], "PATCH DOES NOT APPLY")
             continue
         results = {}
-        for c in meta.get("checks", {meta["property"]: None}).keys():
+        todo = list(meta.get("checks", {meta["property"]: None}).keys())
+        minimal = os.environ.get("RECHECK_MODE") == "min"
+        if minimal:
+            # only until one check fires: those that caught it before first, then the property's own, then the rest;
+            # results of checks not re-run are kept with the commit they were obtained at
+            prev = meta.get("caught_by", [])
+            todo = prev + [c for c in [meta["property"]] + todo if c not in prev]
+            todo = list(dict.fromkeys(todo))
+        for c in todo:
+            if minimal and any(r["exit"] == 1 for r in results.values()):
+                break
             env = dict(os.environ, VF_REPO=tmp, VF_EVIDENCE_DIR=os.path.join(tmp, "evidence"))
             t0 = time.time()
             q = subprocess.run(["./check", c, "--tier", "quick", "--seed", "0"], cwd=ROOT, env=env, capture_output=True, text=True, timeout=7200)
@@ -31,8 +41,17 @@ for path in sorted(glob.glob(os.path.join(ROOT, "seeded", "*", "meta.json"))):
                 except Exception:
                     pass
             results[c] = {"exit": q.returncode, "summary": [ln[:200] for ln in q.stdout.splitlines() if " tier=" in ln][:1], "first_witness": first, "s": round(time.time() - t0, 1)}
+        if minimal:
+            old = meta.get("checks", {})
+            for c, r in old.items():
+                if c not in results and isinstance(r, dict):
+                    r.setdefault("at_verif_commit", meta.get("rechecked_at_verif_commit", "earlier"))
+                    results[c] = r
+        for c, r in results.items():
+            r.setdefault("at_verif_commit", head)
         meta["checks"] = results
-        meta["caught_by"] = [c for c, r in results.items() if r["exit"] == 1]
+        meta["caught_by"] = [c for c, r in results.items() if r["exit"] == 1 and r.get("at_verif_commit") == head]
+        meta["caught_earlier_by"] = [c for c, r in results.items() if r["exit"] == 1 and r.get("at_verif_commit") != head]
         meta["rechecked_at_verif_commit"] = head
         json.dump(meta, open(path, "w"), indent=1)
         print(meta["id"], "caught_by", meta["caught_by"], {c: r["exit"] for c, r in results.items()}, flush=True)
